@@ -63,7 +63,9 @@ class StubTileManager(object):
     def __init__(self, grid, meta_size):
         from mapproxy.grid import MetaGrid
         self.grid = grid
-        self.meta_grid = MetaGrid(grid, meta_size=meta_size, meta_buffer=0) if meta_size else None
+        # (the meta grid of a real tile manager carries the buffer used for rendering - 80 pixels by default for WMS sources;
+        # the walk has to go by the unbuffered meta tiles)
+        self.meta_grid = MetaGrid(grid, meta_size=meta_size, meta_buffer=2) if meta_size else None
         self.rescale_tiles = 0
         self.minimize_meta_requests = False
         self._expire_timestamp = None
@@ -371,8 +373,11 @@ def detect_policy():
 
     keep = S.MetaGrid
     S.MetaGrid = Probe
+    task = wd.task()
+    if task.tile_manager.meta_grid is not None:
+        task.tile_manager.meta_grid.__class__ = Probe
     try:
-        S.TileWalker(wd.task(), Pool(), handle_uncached=True).walk()
+        S.TileWalker(task, Pool(), handle_uncached=True).walk()
     except _Runaway:
         pass
     finally:
@@ -637,6 +642,9 @@ class Session(object):
         self.stop_requested = self.stop_seen = False
         saved_names = (S.MetaGrid, S.SeedProgress, S.TileWorkerPool, U.time)
         S.MetaGrid, S.SeedProgress, S.TileWorkerPool, U.time = RecMetaGrid, RecProgress, StubPool, _FakeTime(self)
+        if self.task.tile_manager.meta_grid is not None:
+            # (a walker that goes by the meta grid of the tile manager instead of one of its own is recorded as well)
+            self.task.tile_manager.meta_grid.__class__ = RecMetaGrid
         out = io.StringIO()
         try:
             store = U.ProgressStore(self.file, continue_seed=True)
